@@ -331,25 +331,29 @@ Example C05_visited_set_nonvacuous :
 Proof. vm_compute. repeat split; reflexivity. Qed.
 
 (** C05_resolution WITH FIELD ACCESS `v.f` (partial: includes at the top level of a file only; the resolver knows
-    the record type of `v` only where it is written down - see below).
+    the record type of `v` only where the rules below give it one).
     ScopeSpecT.v is the declarative resolver of ScopeSpec.v extended with what a field access needs: next to every
     frame the environment records what is known about the TYPE of each declaration (nothing / the k-th class /
-    the k-th def, in the order of declaration), and next to the defs their flattened field tables.  A type is
-    known when it is written down: a field or template argument declared with a class type `A x`, a defvar whose
-    initialiser is an identifier or a class value, a def name used as a value, a class value `A<..>`.  A suffix
-    `.f` on a value of a known record type denotes the field f of the flattened table of that class / def (own
-    fields, then the parents' in order); on any other value - a bang operator, a foreach variable, an inherited or
-    `let`-redeclared field, after another suffix - the resolver lists the use as UNRESOLVED, so that
+    the k-th def, in the order of declaration / a list of such), and the class and def tables carry, next to the
+    flattened field table, the types of those fields.  A type is known for: a field or template argument declared with
+    a class type `A x` or a list of it; a field inherited from a parent class (the type it was declared with there) and a
+    field re-declared by `let` (the type of the field it re-declares); a def name used as a value; a class value
+    `A<..>`; the result of `.f` on a value of a known record type (the declared type of f - so accesses chain, also
+    through defs) and of a single subscript `l[i]` on a value of a known list type; a defvar whose initialiser is one
+    simple value with such suffixes; the variable of a foreach over such a value.  A suffix `.f` on a value of a known
+    record type denotes the field f of the flattened table of that class / def (own fields, then the parents' in
+    order); on any other value - a bang operator (`!cast<A>(..)`), the variable of `!foreach` / `!filter` / `!foldl`, a
+    DEFSET name and what is derived from it, a pasted value - the resolver lists the use as UNRESOLVED, so that
     [well_scoped] does not hold and the theorem does not speak about that workspace (the check counts these:
-    evidence scope_spec.field_accesses_abstained, about 3 % of the generated field accesses).
-    For every workspace whose expanded statements are in the fragment [ScopeSpecT.frag_ws] (now: every value with
+    evidence scope_spec.field_accesses_abstained, 1 - 3 % of the generated field accesses, all on defset elements).
+    For every workspace whose expanded statements are in the fragment [ScopeSpecT.frag_ws] (every value with
     any suffixes) and all of whose uses the typed resolver resolves: the uses the model records, in order, each
     with the file and range of its declaration - identifiers, classes, multiclasses AND fields reached through
     `v.f` - are exactly the resolver's list, and there is no "not found" diagnostic.  No hypothesis on the model's
     panic / fuel flag (IndexerTotal.index_ws_total).  Proofs: ScopeSimT / ScopeSimRecT / ScopeSimWsT (typed copies of
     the development above; invariants: the class / def tables of the environment are aligned position by position
-    with the model's name maps, the record of a closed class / def has the recorded field table, every typed local
-    of the environment is a leaf of that record type in the model). *)
+    with the model's name maps, the record of a closed class / def has the recorded field table AND its fields the
+    recorded types, every typed local of the environment is a leaf of that type in the model). *)
 Theorem C05_resolution_field_access_partial : forall w,
     ScopeSpecT.frag_ws w = true -> ScopeSpecT.well_scoped w = true ->
     rev (s_uses (index_ws w)) = ScopeSpecT.spec_uses w /\ ScopeSimT.nf (index_ws w) = [].
